@@ -161,8 +161,8 @@ PLANS['C15'] = Plan(
 WCF = 'src/workflow_coordinator.py::_WorkflowCoordinator.'
 PLANS['C07'] = Plan(
     'C07', [WCF + '__align', WCF + '__getBestAlignment', 'src/alignment/segment_chainer.py::SequentialityScorer.getScore', WCF + 'execute',
-            'src/alignment/segments.py::AlignmentSegment.slice', 'src/correlation/optical_map.py::OpticalMap.getInitialAlignment#checked',
-            'src/correlation/optical_map.py::InitialAlignment.refine', WCF + '__getPrimaryCorrelations'], 'other',
+            'src/alignment/segments.py::AlignmentSegment.slice', 'src/correlation/optical_map.py::OpticalMap.getInitialAlignment',
+            'src/correlation/optical_map.py::InitialAlignment.refine', WCF + '__getPrimaryCorrelations', WCF + '__getSecondaryCorrelation'], 'other',
     "Deductive part (exception-freedom of the per-query glue, safety obligations generated automatically by the VC generator): _WorkflowCoordinator.__align "
     "never raises - in particular the unpacking of zip(*rows) is only reached with at least one candidate row - and __getBestAlignment returns None exactly for "
     "an empty candidate list (else a maximal-confidence candidate); _WorkflowCoordinator.execute hands p_imap a worker count that is None or at least 1 "
@@ -203,7 +203,10 @@ PLANS['C01'] = Plan(
 )
 PLANS['C02'] = Plan(
     'C02', [OMP + 'trim', OMP + 'getPositionsWithSiteIds', AR + 'create', AR + 'getUnalignedFragments', AR + 'check_overlap', AR + 'resolve',
-            'src/alignment/alignment_results.py::AlignmentResults.resolve', 'src/alignment/aligner.py::Aligner.align#peaks', 'src/alignment/aligner.py::Aligner.align#peak'], 'other',
+            'src/alignment/alignment_results.py::AlignmentResults.resolve', 'src/alignment/aligner.py::Aligner.align#peaks', 'src/alignment/aligner.py::Aligner.align#peak',
+            WCF + '__getPrimaryCorrelations', WCF + '__getSecondaryCorrelation', WCF + '__getAlignmentRow#checked', WCF + '__align', WCF + 'execute',
+            'src/correlation/optical_map.py::OpticalMap.getInitialAlignment', 'src/correlation/optical_map.py::InitialAlignment.refine',
+            'src/correlation/optical_map.py::OpticalMap.trim#wellformed'], 'other',
     "Deductive links: OpticalMap.trim (first label at 0, distances kept, length = last-first+1, id kept) and getPositionsWithSiteIds (label numbers refer to the "
     "whole molecule via shift; reverse strand mirrors about length-1, i.e. measures from the last label of a trimmed query); AlignmentResultRow.create derives "
     "RefStart/RefEnd as the smallest/largest reference coordinate of any pair and QryStart/QryEnd as the query coordinates of those two pairs, swapped on the "
@@ -211,7 +214,12 @@ PLANS['C02'] = Plan(
     "id and length, is a slice of the query's positions and has shift = slice start, so second-pass label numbers refer to the whole query; a candidate row "
     "carries the ids and lengths of the two maps it was aligned on (Aligner.align); a joined record is built only from two records of the same query, "
     "REFERENCE and strand (AlignmentResults.resolve + check_overlap) and carries their ids, lengths and strand (AlignmentResultRow.resolve), so its pairs "
-    "are labels of the reference it names. BOUNDED: every record of every "
+    "are labels of the reference it names; and the whole per-query glue: every row returned by _WorkflowCoordinator.execute names one of the query maps (rows in "
+    "query order, each query at most once) and one of the reference maps - seeding keeps the maps it was given (getInitialAlignment), the refined "
+    "correlation is about the maps of the seed's own primary correlation (__getSecondaryCorrelation, refine), the candidate row carries their ids, lengths and "
+    "strand (__getAlignmentRow#checked, Aligner.align), the best candidate is one of them (__align); the preconditions of all these (maps with at least one "
+    "label, ascending non-negative coordinates) are the class invariant of OpticalMap, established by the reader (bounded, C17) and preserved by trim and by "
+    "the second-pass fragments (obligations at their constructor calls). BOUNDED: every record of every "
     "file of the real program is re-derived from the CMAP *text* with independent parsers (ids, lengths, start/end coordinates per orientation, entry ids, "
     "second-pass records numbered in whole-query labels).",
     bounded=_lazy('bcheck.c02', 'bounded'), replay=_lazy('bcheck.c02', 'replay'),
@@ -252,7 +260,7 @@ PLANS['C05'] = Plan(
 )
 
 PLANS['C17'] = Plan(
-    'C17', [OMP + 'trim', 'lemma::C17::trim_is_idempotent'], 'other',
+    'C17', [OMP + 'trim', OMP + 'trim#wellformed', 'lemma::C17::trim_is_idempotent'], 'other',
     "Deductive part (proved for all maps): OpticalMap.trim keeps the number of labels, moves the first label to 0, keeps every inter-label distance, sets the length "
     "to last-first+1 and keeps the id; idempotence trim(trim(m)) = trim(m) is a lemma over that contract. BOUNDED: CmapReader (pandas) on generated CMAP text "
     "(arbitrary ids, 0-8 labels, one-decimal coordinates, shuffled rows, extra columns, label-less molecules, id filters) against an independent parser.",
@@ -319,7 +327,7 @@ PLANS['C06'] = Plan(
     'C06', ['src/correlation/optical_map.py::toRelativeGenomicPositions', 'src/correlation/sequence_generator.py::SequenceGenerator.positionsToSequence',
             AE + '__getAlignedPairs', 'src/correlation/optical_map.py::OpticalMap.getSequence', 'src/correlation/optical_map.py::CorrelationResult.create',
             'src/correlation/optical_map.py::CorrelationResult.createPeaks', 'src/correlation/optical_map.py::InitialAlignment.refine',
-            'src/correlation/optical_map.py::InitialAlignment.create', 'src/correlation/optical_map.py::OpticalMap.getInitialAlignment#checked'], 'exploration',
+            'src/correlation/optical_map.py::InitialAlignment.create', 'src/correlation/optical_map.py::OpticalMap.getInitialAlignment'], 'exploration',
     "Decided by a BOUNDED run-time contract on Program.run: that FFT cross-correlation plus scipy find_peaks seeds the true diagonal is floating-point "
     "numerics outside any contract within reach. Planted exact copies of interior reference windows (class stated in the property) must be reported exactly. "
     "Deductive contributions reported alongside and not counted towards the level: bins are counted from the window start and a bin index converts to the "
